@@ -169,6 +169,7 @@ type Node07 struct {
 	// IK (pass nodes): added with WithInputKey("k"): its input must be a map[string]any, what flows on is the
 	// value under the key (its type is whatever the neighbours fix; the value itself is checked at run time)
 	IK      bool   `json:"ik,omitempty"`
+	OK      bool   `json:"ok,omitempty"` // kind "sub": also WithOutputKey("o")
 	Branch2 string `json:"branch2,omitempty"`
 	B2First bool   `json:"b2first,omitempty"`
 	PreH    string `json:"preh,omitempty"` // "" or the pre-handler's value type
@@ -243,7 +244,14 @@ func genC07(t *rapid.T) CaseC07 {
 	for i := 0; i < k; i++ {
 		n := Node07{}
 		curBefore = append(curBefore, cur)
-		if rapid.IntRange(0, 3).Draw(t, "pass") == 0 {
+		if (cur == "map" || cur == "any") && rapid.IntRange(0, 3).Draw(t, "subGraph") == 0 || rapid.IntRange(0, 19).Draw(t, "subGraphAny") == 0 {
+			n.Kind = "sub"
+			n.OK = rapid.Bool().Draw(t, "subOutKey")
+			cur = "string"
+			if n.OK {
+				cur = "map"
+			}
+		} else if rapid.IntRange(0, 3).Draw(t, "pass") == 0 {
 			n.Kind = "pass"
 			w := 9
 			if cur == "map" || cur == "any" {
@@ -276,7 +284,7 @@ func genC07(t *rapid.T) CaseC07 {
 			} else {
 				n.Branch = compat(cur)
 			}
-			if rapid.IntRange(0, 2).Draw(t, "branch2") == 0 {
+			if n.Kind != "sub" && rapid.IntRange(0, 2).Draw(t, "branch2") == 0 {
 				n.Branch2 = compat(cur)
 				if rapid.IntRange(0, 9).Draw(t, "branch2Bad") == 0 {
 					n.Branch2 = ty("bt2")
@@ -325,7 +333,17 @@ func build07[I, O any](c CaseC07) (run07, error) {
 			opts = append(opts, c07PreHandlers[n.PreH]())
 		}
 		var err error
-		if n.Kind == "pass" && n.IK {
+		if n.Kind == "sub" {
+			sub := compose.NewGraph[string, string]()
+			_ = sub.AddLambdaNode("l", compose.InvokableLambda(func(ctx context.Context, x string) (string, error) { return "sub(" + x + ")", nil }))
+			_ = sub.AddEdge(compose.START, "l")
+			_ = sub.AddEdge("l", compose.END)
+			so := []compose.GraphAddNodeOpt{compose.WithInputKey("k")}
+			if n.OK {
+				so = append(so, compose.WithOutputKey("o"))
+			}
+			err = g.AddGraphNode(key(i), sub, so...)
+		} else if n.Kind == "pass" && n.IK {
 			err = g.AddPassthroughNode(key(i), compose.WithInputKey("k"))
 		} else if n.Kind == "pass" {
 			err = g.AddPassthroughNode(key(i))
@@ -553,6 +571,7 @@ func checkC07(c CaseC07) (*vkit.Failure, vkit.Meta) {
 		sideFed, sideAmbiguous := false, false
 		twoBranches := false
 		keyedPass := false
+		keyMissing := false // the map reaching an input key does not have the key: an error in Invoke, an empty stream in Stream
 		visit := func(p pos) {
 			if firstBad != nil {
 				return
@@ -577,6 +596,37 @@ func checkC07(c CaseC07) (*vkit.Failure, vkit.Meta) {
 			visit(pos{"branch condition at START", declared, c.StartB})
 		}
 		for i, n := range c.Nodes {
+			if n.Kind == "sub" {
+				// a sub graph string -> string added with WithInputKey("k") (and WithOutputKey("o") when OK is set):
+				// its declared input is map[string]any, what it works on is the value under the key
+				visit(pos{fmt.Sprintf("input of the keyed sub graph x%d", i), declared, "map"})
+				if firstBad == nil {
+					mv, _ := val.(map[string]any)
+					picked, has := mv["k"]
+					if !has {
+						keyMissing = true
+					}
+					if _, isStr := picked.(string); !has || !isStr {
+						pp := pos{fmt.Sprintf("value under the input key of sub graph x%d", i), "any", "string"}
+						firstBad = &pp
+						keyedPass = true // consumer-side assertion: panic or error not judged
+					} else {
+						keyedPass = true
+						if n.OK {
+							declared, producerOut = "map", "map"
+							val = map[string]any{"o": "sub(" + picked.(string) + ")"}
+						} else {
+							declared, producerOut = "string", "string"
+							val = "sub(" + picked.(string) + ")"
+						}
+					}
+				}
+				hops = 0
+				if n.Branch != "" {
+					visit(pos{fmt.Sprintf("branch condition after x%d", i), declared, n.Branch})
+				}
+				continue
+			}
 			if n.Kind == "lambda" {
 				if n.PreH != "" {
 					visit(pos{fmt.Sprintf("state pre-handler of x%d", i), declared, n.PreH})
@@ -666,6 +716,9 @@ func checkC07(c CaseC07) (*vkit.Failure, vkit.Meta) {
 				visit(pos{fmt.Sprintf("input of the keyed pass-through x%d", i), declared, "map"})
 				if firstBad == nil {
 					mv, _ := val.(map[string]any)
+					if _, has := mv["k"]; !has {
+						keyMissing = true
+					}
 					val = mv["k"]
 					declared = "any" // a value taken out of a map[string]any: checked dynamically from here on
 					producerOut = "any"
@@ -701,6 +754,10 @@ func checkC07(c CaseC07) (*vkit.Failure, vkit.Meta) {
 		visit(pos{"graph output", declared, c.OutT})
 		if nilFlow {
 			m.Labels = append(m.Labels, "nil-interface-value-flows")
+		}
+		if keyMissing {
+			m.Labels = append(m.Labels, "input-key-missing-skipped")
+			return nil
 		}
 		rec := &c07Rec{got: map[string]string{}}
 		ctx := context.WithValue(context.Background(), c07Key{}, rec)
